@@ -25,7 +25,7 @@ for p in ALL:
             "text": s.get("level_text", "Bounded model checking of the real code: the compiled functions are executed symbolically (Kani/CBMC, SAT) with the inputs the property quantifies over left symbolic inside the stated bounds; the solver's verdict covers every value inside the bounds and says nothing outside them. Counterexamples are replayed against the real build before they are reported."),
             "design_ref": s.get("design_ref", "DESIGN.md section 4, " + p),
         },
-        "level_note": s.get("level_note", "Trusted: the model crates and std model listed in the evidence (assumptions), Kani/CBMC, the stated bounds. " + "; ".join(s.get("outside", [])[:3])),
+        "level_note": (("PARTIAL CLAIM (" + s["level_note_extra"] + "). ") if s.get("level_note_extra") else "") + s.get("level_note", "Trusted: the model crates and std model listed in the evidence (assumptions), Kani/CBMC, the stated bounds. Outside the claim: " + "; ".join(s.get("outside", [])[:4])),
         "technique": s.get("technique", "bounded model checking (Kani/CBMC SAT) of /repo's compiled source with symbolic inputs; native replay of counterexamples"),
     })
 na = []
